@@ -42,4 +42,18 @@ CONFIG = {
         "quick": {"parts": [part("TestC04", 16, 30)]},
         "thorough": {"parts": [part("TestC04", 32, 500, timeout=3000)]},
     },
+    "C06": {
+        "level": "exploration",
+        "rule": "rapid-generated single-table dataset (fields from the aggregate grammar incl. IF/BOUNDED/PERCENTILE, GROUP BY */dim subsets, WHERE, mixed-type dims) + storage split x a grouped query: SELECT _points, <subset of table fields>, optional derived ratio/sum/product of two fields, GROUP BY {all dims kept | subset of dims | none}, period multiple in {none,1,2,3,4,5,7,10, larger than the window}, clock at newest point + {0, 1ns, res/2, res, 3res}. Oracle: reference aggregator over the raw accepted points, re-bucketed at the query anchor (until = clock rounded up), every field recomputed from its components; plus the validity predicate 'no two rows share key and period'. Non-trivial: some output row folds >=2 fine periods and >=2 source keys.",
+        "assumptions": ["constants are not used in derived fields (listed finding const-operand-gap-rows)", "table fields have pairwise different expression text (listed finding same-expr-text-fields)", "_points is always selected so that row existence does not depend on which fields happen to be set"],
+        "quick": {"parts": [part("TestC06", 16, 40)]},
+        "thorough": {"parts": [part("TestC06", 32, 600, timeout=3000)]},
+    },
+    "C07": {
+        "level": "exploration",
+        "rule": "as C06 plus ASOF and/or UNTIL: absolute aligned to the resolution, absolute unaligned (millisecond), relative in whole periods, relative unaligned; inside, outside and straddling the stored data; combined with every grouping and period choice. Oracle: the reference result for a window (A, U] where an aligned bound is exact and an unaligned bound may be applied rounded down or up (a period straddling a bound may or may not be included; periods wholly inside must be, periods wholly outside must not); a documented planning error is accepted only when the window starts before the table's retention window, is empty, or ends after now. Non-trivial: a bound falls strictly inside the stored series and >= 2 accepted points.",
+        "assumptions": ["as C06", "values inside the window are compared with the reference (which the unbounded query of C06 is also compared with), so 'identical to the unbounded query' follows"],
+        "quick": {"parts": [part("TestC07", 16, 40)]},
+        "thorough": {"parts": [part("TestC07", 32, 600, timeout=3000)]},
+    },
 }
